@@ -59,7 +59,7 @@ Proof.
   apply term_eqb_eq in E. subst t. rewrite rn_term_if, term_eqb_refl.
   destruct d as [|kv d].
   - cbn [rn_delta map]. destruct b.
-    + destruct s; [|discriminate]. inv H. reflexivity.
+    + inv H. reflexivity.
     + inv H. unfold set_tstack, rn_tracker, rn_sterm. cbn. rewrite (rn_py_inst f p []). reflexivity.
   - change (rn_delta f (kv :: d)) with ((fst kv, rn f (snd kv)) :: rn_delta f d).
     cbv iota in H. cbv iota.
